@@ -183,7 +183,13 @@ pub fn scenario_cheaters_named<C: Suite>(rng: &mut TestRng, p: &Params, notes: &
                         format!("{:?} ({})", culprits_hex::<C>(&e), short_dbg(&e)),
                     )?;
                 } else {
-                    let first = cheaters_v.first().copied();
+                    // the lowest identifier by NUMERIC value (not by the library's own `Ord`, which is part of what is checked)
+                    let mut by_value: Vec<(Vec<u8>, Id<C>)> = Vec::new();
+                    for c in &cheaters_v {
+                        by_value.push((id_numeric_be::<C>(c)?, *c));
+                    }
+                    by_value.sort_by(|a, b| a.0.cmp(&b.0));
+                    let first = by_value.first().map(|x| x.1);
                     check(
                         Some(named.as_slice()) == first.as_ref().map(std::slice::from_ref),
                         &format!("{name} names exactly the lowest-identifier participant whose share was altered"),
